@@ -63,11 +63,20 @@ fn parse_content(
                         Span::new(base_position + position, base_position + end_position),
                     )
                 })?;
+                // only digits: from_str_radix and parse accept a leading sign
                 let code = if first_char == 'x' {
-                    u32::from_str_radix(&entity[1..], 16)
+                    let digits = &entity[1..];
+                    if digits.chars().all(|c| c.is_ascii_hexdigit()) {
+                        u32::from_str_radix(digits, 16).ok()
+                    } else {
+                        None
+                    }
+                } else if entity.chars().all(|c| c.is_ascii_digit()) {
+                    entity.parse::<u32>().ok()
                 } else {
-                    entity.parse::<u32>()
+                    None
                 };
+                let code = code.ok_or(());
                 let code = code.map_err(|_| {
                     ParseError::InvalidEntity(
                         entity.to_string(),
